@@ -144,7 +144,8 @@ CHECKS = {
     "C17": {
         "text": "Partial, static, on SubgraphMerge (MIR, all paths): UnionFind::union in try_merge is dominated by the 'not enemies' edge of the enemies lookup and by the exhaustion "
                 "of the cycle search; no other function unions the membership structure; the no-merge relation is inserted symmetrically and remapped element-wise on a merge "
-                "(u gains w, w loses v and gains u). Correctness of topo_sort, of the window re-sort and 'refuses only when necessary' are NOT decided.",
+                "(u gains w, w loses v and gains u); the toposort windows `sg_idx[k] .. sg_idx[k]+sg_len[k]` pair offset and length under the same key. Correctness of topo_sort, of the "
+                "window re-sort itself and 'refuses only when necessary' are NOT decided.",
         "note": "Necessary conditions for 'never merges two incompatible nodes' and 'never creates a cycle between groups'.",
         "technique": "dominance / who-may-call / argument-flow rules on rustc MIR",
     },
